@@ -13,8 +13,8 @@ import (
 	"strings"
 
 	"github.com/cloudwego/dynamicgo/conv"
-	"github.com/cloudwego/dynamicgo/meta"
 	"github.com/cloudwego/dynamicgo/conv/j2p"
+	"github.com/cloudwego/dynamicgo/meta"
 	dproto "github.com/cloudwego/dynamicgo/proto"
 	rwire "google.golang.org/protobuf/encoding/protowire"
 	"google.golang.org/protobuf/proto"
@@ -43,12 +43,13 @@ type PJSpell struct {
 
 type pjw struct {
 	jw
-	ps        PJSpell
-	unknowns  int
-	nulls     int
-	empties   int
-	floatInts int
-	unkSeq    int
+	ps          PJSpell
+	unknowns    int
+	nulls       int
+	empties     int
+	floatInts   int
+	nullMapVals int
+	unkSeq      int
 }
 
 func (w *pjw) key(fd protoreflect.FieldDescriptor) {
@@ -228,7 +229,13 @@ func (w *pjw) msg(m protoreflect.Message, depth int) {
 				w.sb.WriteByte(':')
 				w.ws()
 				if fd.MapValue().Kind() == protoreflect.MessageKind {
-					w.msg(e.v.Message(), depth+1)
+					if w.ps.Nulls && proto.Size(e.v.Message().Interface()) == 0 && w.r.Chance(50) {
+						// null for a message-typed map value: the entry with the empty message
+						w.sb.WriteString("null")
+						w.nullMapVals++
+					} else {
+						w.msg(e.v.Message(), depth+1)
+					}
 				} else {
 					w.scalar(fd.MapValue(), e.v)
 				}
@@ -370,7 +377,9 @@ func c09Check(cs *h.Case, desc *dproto.TypeDescriptor, md protoreflect.MessageDe
 		cs.Viol("j2p:"+kind+":different-message", "got", trunc(fmt.Sprint(got)), "out", out, "json", trunc(doc))
 		return false
 	}
-	if mm := wireShape(md, out, ""); mm != "" {
+	// (a null map value comes out as an entry with the key alone, which denotes the empty message: the
+	// key-then-value shape is only asked of documents that spell their map values out)
+	if mm := wireShape(md, out, ""); mm != "" && !strings.HasSuffix(kind, "+null-map-values") {
 		cs.Viol("j2p:"+kind+":wire-shape", "mismatch", mm, "out", out, "json", trunc(doc))
 		return false
 	}
@@ -739,11 +748,17 @@ func c09Messages(cs *h.Case, huge bool) {
 		} else if w.empties > 0 {
 			kind = "empty-containers"
 		}
+		if w.nullMapVals > 0 {
+			kind += "+null-map-values"
+		}
 		if w.empties > 0 {
 			cs.Cover("j2p_docs_with_empty_containers")
 		}
 		if w.floatInts > 0 {
 			cs.Cover("j2p_docs_with_float_spelled_integers")
+		}
+		if w.nullMapVals > 0 {
+			cs.Cover("j2p_docs_with_null_message_map_values")
 		}
 		if c09Check(cs, desc, pc.Root, doc, m, o, kind) {
 			cs.Cover("j2p_ok")
